@@ -509,7 +509,109 @@ func c12Run(w *verifrt.World, tier Tier) *RunResult {
 		w.MapPolicy = verifrt.MapCanonical
 	}
 	res.count("map_orders_permuted", int64(w.MapOrders))
+
+	// (4) two transactions of one WAF, interleaved by the seeded scheduler (a
+	// sixth of the runs): whatever transformations share beyond one transaction
+	// (memo tables, pooled buffers) must not hand one transaction a value
+	// computed for the other - each sees exactly what it sees alone
+	if len(res.Viol) == 0 && w.Work.Draw(6) == 0 {
+		g := c12Gen(w.Work)
+		sc2 := *sc
+		sc2.URI, sc2.Headers, sc2.Body = g.URI, g.Headers, g.Body
+		if sc2.Phase == 2 && sc2.Body == "" {
+			sc2.Body = "a=Ab&b=%41b"
+		}
+		a2, ok := c12RunVariant(&sc2, 0, res)
+		if ok {
+			if h, err := buildWAF(sc.text(0)); err == nil {
+				h.Concurrent = true
+				scs := []*c12Scenario{sc, &sc2}
+				obs := make([]map[int][][3]string, 2)
+				pans := make([]string, 2)
+				var fns []func()
+				for i := range scs {
+					i := i
+					fns = append(fns, func() { obs[i], pans[i] = c12Tx(h, scs[i], fmt.Sprintf("c12-t%d", i)) })
+				}
+				sch := verifrt.NewSched(w.Sch, []int{verifrt.PolicyRandom, verifrt.PolicyRandom, verifrt.PolicyPCT}[w.Sch.Draw(3)])
+				sch.RunLen = []int{1, 1, 2, 4, 8}[w.Sch.Draw(5)]
+				tasks := sch.Run(fns)
+				res.Interleave = sch.TraceHash
+				res.count("interleaved_pairs", 1)
+				res.count("context_switches", int64(sch.Switches))
+				if sch.Deadlock || sch.Overrun {
+					res.Tainted = true
+					res.fail("C12", "deadlock", "interleaved", "two interleaved transactions did not finish (deadlock=%v, step budget exceeded=%v)", sch.Deadlock, sch.Overrun)
+				}
+				for _, tk := range tasks {
+					if tk.Panic != nil {
+						res.Tainted = true
+						res.fail("C12", "panic", "interleaved/"+panicSite(tk.Stack), "task %d panicked: %v\n%s", tk.ID, tk.Panic, clip(tk.Stack, 1500))
+					}
+				}
+				if len(res.Viol) == 0 {
+					for i, want := range []map[int][][3]string{a, a2} {
+						if pans[i] != "" {
+							res.fail("C12", "panic", "interleaved/"+panicSite(pans[i]), "interleaved transaction %d panicked: %s", i, pans[i])
+							break
+						}
+						ids := map[int]bool{}
+						for id := range want {
+							ids[id] = true
+						}
+						for id := range obs[i] {
+							ids[id] = true
+						}
+						var sorted []int
+						for id := range ids {
+							sorted = append(sorted, id)
+						}
+						sort.Ints(sorted)
+						bad := false
+						for _, id := range sorted {
+							if !reflect.DeepEqual(sortTriples(want[id]), sortTriples(obs[i][id])) {
+								res.fail("C12", "wrong-value-interleaved", feature(id), "rule %d saw %q in a transaction interleaved with another one on the same WAF, and %q when the transaction runs alone\nconfiguration:\n%s\nrequest: %s body=%q\nother request: %s body=%q",
+									id, sortTriples(obs[i][id]), sortTriples(want[id]), sc.text(0), scs[i].URI, scs[i].Body, scs[1-i].URI, scs[1-i].Body)
+								bad = true
+								break
+							}
+						}
+						if bad {
+							break
+						}
+					}
+				}
+				if !res.Tainted {
+					h.Close()
+				}
+			}
+		}
+	}
 	return res
+}
+
+// c12Tx runs one transaction of the scenario on h and returns what its rules saw.
+func c12Tx(h *wafHandle, sc *c12Scenario, id string) (obs map[int][][3]string, pan string) {
+	s := sc.script()
+	pan = safely(func() {
+		tx := h.WAF.NewTransactionWithID(id)
+		tx.ProcessURI(s.URI, s.Method, "HTTP/1.1")
+		for _, hd := range s.Headers {
+			tx.AddRequestHeader(hd.K, hd.V)
+		}
+		if s.ContentType != "" {
+			tx.AddRequestHeader("Content-Type", s.ContentType)
+		}
+		tx.ProcessRequestHeaders()
+		if s.BodyKind != "" {
+			tx.WriteRequestBody(s.Body)
+		}
+		tx.ProcessRequestBody()
+		obs = c12Observe(tx.MatchedRules())
+		tx.ProcessLogging()
+		tx.Close()
+	})
+	return obs, pan
 }
 
 func init() {
@@ -524,6 +626,6 @@ func init() {
 		Real:        []string{"rule engine, transformation cache, collections, seclang parser, transformations"},
 		Stub:        []string{"map iteration order", "clock", "random source", "file system"},
 		Unchecked:   []string{"order of values inside one rule"},
-		MustHit:     []string{"shared_prefix_scenarios", "model_checked", "dynamic_scenarios"},
+		MustHit:     []string{"shared_prefix_scenarios", "model_checked", "dynamic_scenarios", "interleaved_pairs"},
 	})
 }
